@@ -969,7 +969,10 @@ func genStore(c *Ctx, profile string) {
 		n = 60
 	}
 	if profile == "c04" { // every crash is a child process and two store openings
-		n = map[string]int{"quick": 90, "thorough": 600}[c.Tier]
+		n = map[string]int{"quick": 90, "thorough": 400}[c.Tier]
+	}
+	if profile == "c20" && c.Tier == "thorough" { // backups and restores dominate
+		n = 350
 	}
 	for i := 0; i < n; i++ {
 		g := &storeGen{kinds: storeProfiles[profile], atOnly: profile == "c06", c: c, ids: []string{"ns3:e1", "ns3:e2", "ns3:e3", "ns3:e4", "ns3:e5"}, preds: []string{"ns3:r1", "ns3:r2", "ns3:r3"}, dss: []string{"a", "b", "c"}[:2+c.Rng.Intn(2)]}
